@@ -50,7 +50,7 @@ def run(ctx, rep):
     C17.check_extend_sites(ctx, rep, "C10.a")
     n = borrow(rep, ctx, C02, lambda o: o.rule == "C02.c", "C10.b")
     rep.floor("C10.b", "borrowed obligations", n, 5)
-    n = borrow(rep, ctx, C02, lambda o: o.rule == "C02.d" and "/executor/" in o.key and ("/deferred/" in o.key or "Undecided" in o.key), "C10.c")
+    n = borrow(rep, ctx, C02, lambda o: o.rule == "C02.d" and (("/executor/" in o.key and ("/deferred/" in o.key or "Undecided" in o.key)) or "filter_index_files" in o.key), "C10.c")
     rep.floor("C10.c", "borrowed obligations", n, 6)
     n = borrow(rep, ctx, C03, lambda o: o.rule == "R-ORDER" and re.search(r"/R-ORDER/(13|13b|14)/", o.key), "C10.e")
     rep.floor("C10.e", "borrowed obligations", n, 6)
@@ -74,6 +74,18 @@ def run(ctx, rep):
         contains = [tt for _, tt in cl.calls() if "callee" in tt and re.search(r"BTreeSet<.*>::contains$|BTreeSet::<T, A>::contains$", callee(tt))]
         if reads_mark and contains:
             ok = True
+    # pack identity is the pack id alone: the processed-pack sets are not split by the (derived) blob type - a pack listed
+    # once with an empty blob list (type defaults to Data) and once as a tree pack is still the same pack
+    typed = []
+    for f in fam:
+        for bb, t in f.calls():
+            if "callee" in t and re.search(r"BTreeSet::<T, A>::(insert|contains)$|HashSet<.*>::(insert|contains)$", callee(t)) and op_place(t["args"][0]):
+                e = flow.expr_of(f, t["args"][0], bb)
+                fl, cs = flow.expr_mentions(e)
+                if "blob_type" in fl or any(c.endswith("::blob_type") for c in cs) or any(re.search(r"ops::Index(Mut)?<.*BlobType.*>>::index(_mut)?$|BlobTypeMap", c) for c in cs):
+                    typed.append(where(f, bb))
+    rep.check("C10.d", "pack-identity-is-the-id", not typed, where=NW.loc(), what="the processed-pack sets of PrunePlan::new are keyed by pack id only" if not typed else
+              f"PrunePlan::new looks packs up in sets selected by blob type ({sorted(set(typed))}): a pack re-indexed under another (derived) type keeps its stale delete mark and is removed although it is in use")
     rep.check("C10.d", "marked-duplicates-dropped", ok, where=NW.loc(), what="PrunePlan::new retains a marked entry only if the same pack is not also listed unmarked (a pack re-added by a concurrent backup is not deleted)")
     marks_persisted_rule(ctx, rep, "C10.f")
     safe_defaults_rule(ctx, rep, "C10.g")
